@@ -26,6 +26,8 @@ import (
 	"github.com/DataDog/datadog-traceroute/udp"
 )
 
+type callerKey struct{}
+
 // Iter is the outcome of one iteration of a repeated service call.
 type Iter struct {
 	StartAt, EndAt time.Duration
@@ -34,6 +36,11 @@ type Iter struct {
 	Err            error
 	DNSCallsBefore, DNSCallsAfter   int
 	HTTPDialsBefore, HTTPDialsAfter int
+	// DNSCallsDuring / DialsDuring count the resolver calls / provider dials made by this caller's
+	// own goroutine tree during the iteration (attributed by goroutine for DNS, by time window for
+	// HTTP dials, which happen on the caller's goroutine inside net/http).
+	DNSCallsDuring int
+	DialsDuring    int
 }
 
 // CallState is a call and, once it has returned, its outcome.
@@ -87,7 +94,7 @@ func (w *World) startCall(ci int) {
 	cs := w.Calls[ci]
 	cs.Started = true
 	cs.StartAt = w.now()
-	ctx, cancel := context.WithCancel(context.Background())
+	ctx, cancel := context.WithCancel(context.WithValue(context.Background(), callerKey{}, "c"+strconv.Itoa(ci)))
 	cs.cancel = cancel
 	if cs.C.CancelAtUs > 0 {
 		w.schedule(event{at: time.Duration(cs.C.CancelAtUs) * time.Microsecond, kind: "cancel", call: ci})
@@ -268,6 +275,17 @@ func (w *World) iterate(cs *CallState, f func(it *Iter)) {
 		w.park(&op{kind: opYield, actor: "c" + strconv.Itoa(cs.Idx)})
 		it.EndAt = w.now()
 		it.DNSCallsAfter, it.HTTPDialsAfter = w.svcCounts()
+		me := "c" + strconv.Itoa(cs.Idx)
+		for _, d := range w.dns.Calls[it.DNSCallsBefore:it.DNSCallsAfter] {
+			if d.Caller == me {
+				it.DNSCallsDuring++
+			}
+		}
+		for _, c := range w.httpSt.Conns[it.HTTPDialsBefore:it.HTTPDialsAfter] {
+			if c.Caller == me {
+				it.DialsDuring++
+			}
+		}
 		cs.Iters = append(cs.Iters, it)
 	}
 }
